@@ -264,8 +264,9 @@ func (v *LV) Build(r *Rng) any {
 		out := make([]any, len(v.A), len(v.A)+spare)
 		if v.R == "alias" && r == nil && len(v.A) > 0 {
 			shared := v.A[0].Build(nil)
+			first := mustJSON(v.A[0]) // by content, so that the sharing survives a clone or a replay file
 			for i, x := range v.A {
-				if x == v.A[0] {
+				if x == v.A[0] || mustJSON(x) == first {
 					out[i] = shared // aliasing is not part of the value: equal bindings, same rendering
 				} else {
 					out[i] = x.Build(nil)
@@ -591,6 +592,15 @@ func GenEnv(r *Rng, mapLo, mapHi int) *Env {
 		}
 		return a
 	}()})
+	if r.Chance(0.2) {
+		// records sharing one default list (aliased in the canonical build only)
+		inner := &LV{T: "arr", A: []*LV{{T: "int", I: int64(r.Range(1, 9))}, {T: "str", S: pick(r, words)}}}
+		sh := &LV{T: "arr", R: "alias"}
+		for i, n := 0, r.Range(2, 4); i < n; i++ {
+			sh.A = append(sh.A, inner)
+		}
+		add("shared", sh)
+	}
 	add("m", genMap(r, 1, mapLo, mapHi))
 	add("m2", genMap(r, 0, mapLo, mapHi))
 	add("p", genStruct(r))
